@@ -343,7 +343,7 @@ func (ch c02) Run(c *core.Ctx) {
 			conn := tr.NewConn(&hs.Sess{Default: func(string) *hs.Prog { return probe }})
 			conn.Yield = tr.YieldFn(rng.U64())
 			e2.L.DialConn(conn)
-			in := pg.Startup([][2]string{{"user", "u"}})
+			in := pg.Startup([][2]string{{"user", rng.Ident(1 + rng.Intn(40))}})
 			for m := rng.Intn(6); m > 0; m-- {
 				switch rng.Intn(5) {
 				case 0: // an oversized message: answered before any command is admitted
